@@ -1,6 +1,6 @@
 (* Entry points of the executable model, addressed by a numeric code (table mirrored in the harness). *)
 From Coq Require Import ZArith List.
-From WPU Require Import Common.Val Model.Buffers Model.Generic.
+From WPU Require Import Common.Val Model.Buffers Model.Generic Model.Spans Model.IntervalMap.
 Import ListNotations.
 Open Scope Z_scope.
 
@@ -8,7 +8,8 @@ Definition table : list (Z * (val -> val)) :=
   [ (1500, run_buffer); (1501, run_printbuffer); (1502, run_ring);
     (1900, run_int_2_roman); (1901, run_roman_2_int); (1902, run_arg_sort); (1903, run_sub_seq);
     (1904, run_search_sub_seq); (1905, run_compare_pos); (1906, run_batcher); (1907, run_batcher_iter);
-    (1908, run_batcher_tuple); (1909, run_batcher_iter_tuple); (1910, run_roman_all) ].
+    (1908, run_batcher_tuple); (1909, run_batcher_iter_tuple); (1910, run_roman_all);
+    (1000, run_spans); (1600, run_imap) ].
 
 Fixpoint lookup (t : list (Z * (val -> val))) (code : Z) : option (val -> val) :=
   match t with
